@@ -54,19 +54,24 @@ def _transpose_job(state, sp):
         ev = w.ev()
         before = eff(w, ev, sp.build(w))
         perms = list(itertools.permutations(range(nd))) if nd <= 3 else [p for i, p in enumerate(itertools.permutations(range(nd))) if i % 3 == 1]
-        for perm in perms:
+        # the same permutations with some axes counted from the end (-1 = last), as every other operation of the library accepts
+        spelled = [(perm, perm) for perm in perms]
+        if nd >= 2:
+            spelled += [(perm, tuple(p - nd if (p + i) % 2 else p for i, p in enumerate(perm))) for perm in perms[1::2]]
+        for perm, given in spelled:
             wit.tick("R03.4")
-            after = eff(w, ev, w.meth(ev, sp.build(w), "transpose", perm))
+            after = eff(w, ev, w.meth(ev, sp.build(w), "transpose", given))
             for s, (sg, leaf) in before.items():
                 t = tuple(s[p] for p in perm)
                 want = sg * koszul([model.parity(c) for c in s], perm)
                 got = after.get(t)
+                neg = " (axes counted from the end)" if given != perm else ""
                 if got is None or got[1] != leaf:
-                    wit.bad("R03.4|blocks", f"{where} perm={perm}: block {s} does not arrive at sector {t}")
+                    wit.bad("R03.4|blocks" + neg, f"{where} transpose({given}): block {s} does not arrive at sector {t}")
                     break
                 if got[0] != want:
-                    wit.bad("R03.4|sign", f"{where} perm={perm}: block {s} (parities {[model.parity(c) for c in s]}) gets sign {got[0]}, the graded "
-                                          f"rule gives {want}")
+                    wit.bad("R03.4|sign" + neg, f"{where} transpose({given}): block {s} (parities {[model.parity(c) for c in s]}) gets sign {got[0]}, "
+                                                f"the graded rule gives {want}")
                     break
     except Unsupported as e:
         raise AnalysisError(f"FermionicArray.transpose outside the evaluable sub-language: {e}")
